@@ -179,9 +179,18 @@ func parseSig(b []byte) (uint32, bool, []byte, error) {
 
 // split bytecode into head and b using length-prefixed integer
 func intSplit(b []byte) (uint32, []byte, error) {
+	if len(b) == 0 {
+		return 0, b, fmt.Errorf("argument is empty")
+	}
 	l := uint8(b[0])
 	sz := uint32(l)
 	b = b[1:]
+	if l > 4 {
+		return 0, b, fmt.Errorf("integer length %v exceeds 4 bytes", l)
+	}
+	if len(b) < int(l) {
+		return 0, b, fmt.Errorf("corrupt instruction, len %v less than integer length: %v", len(b), l)
+	}
 	if l > 0 {
 		r := []byte{0, 0, 0, 0}
 		c := 0
@@ -208,7 +217,7 @@ func instructionSplit(b []byte) (string, []byte, error) {
 	if sz == 0 {
 		return "", nil, fmt.Errorf("zero-length argument")
 	}
-	bSz := len(b)
+	bSz := len(b) - 1
 	if bSz < int(sz) {
 		return "", nil, fmt.Errorf("corrupt instruction, len %v less than symbol length: %v", bSz, sz)
 	}
